@@ -12,45 +12,47 @@
    Uncompressed and the theorems below are about it.  Under vec / hnsw_bench, entries() of an
    HNSW index is empty, remove a no-op and embedding_for None, so the first rebuild after the
    index reaches 1000 documents keeps only the new documents and update_frame stops carrying
-   embeddings: not modelled here; confirmed on a scratch build with feature hnsw_bench (1000 embedded puts,
-   commit: vector_count 1000 and frame_embedding(5) = None; one more embedded put, commit:
-   vector_count 1 and only frame 1000 is reachable).
+   embeddings: not modelled here; confirmed on a scratch build with feature hnsw_bench (1000
+   embedded puts, commit: vector_count 1000 and frame_embedding(5) = None; one more embedded put,
+   commit: vector_count 1 and only frame 1000 is reachable).
 
-   The property as stated ("after any history", "after doctor") is REFUTED by two situations,
-   recorded as known findings, and proved outside them:
-     F-C14-1 doctor-vec-rebuild         doctor with rebuild_vec_index drops manifest and index and
-                                        rebuilds from nothing: every embedding is lost
-     F-C14-2 crash-before-vec-manifest  exit without commit while the vec manifest exists only in
-                                        memory: replay on open runs with vec disabled and drops
-                                        the embeddings of the pending records *)
+   History.  The property was refuted on the code before 83a83e8 / 8099cac by doctor with
+   rebuild_vec_index (index emptied, F-C14-1) and by an exit without commit before the vec manifest
+   ever reached the file (replay dropped the pending embeddings, F-C14-2).  Both are repaired in
+   /repo; the model follows the repaired code and the membership theorem now covers every
+   history, those two included, with no known class.  The old behaviour is kept as
+   vcommit_unfixed / doctor_vec_unfixed with the lemmas C14_*_unfixed below.
+
+   Boundary.  In the model the index on file always decodes.  An index whose bytes no longer
+   decode makes ensure_vec_index fail (silently: vec_index stays None), and the next rebuild --
+   any commit with a frame record, vacuum, doctor -- then writes an empty index: every embedding
+   is lost.  That is file damage (C20 / C21), outside this property's histories. *)
 From MV Require Import Base.Prelude Model.Store Model.StoreSpec Model.VecStore Model.VecSpec Proofs.StoreProofs Proofs.VecProofs.
 Local Open Scope N_scope.
 
 (* For EVERY history over put_with_embedding / put_with_chunk_embeddings (any number of chunk
-   embeddings) / plain puts / update_frame with or without an explicit embedding and with or
-   without payload / delete / enable_vec / commit / vacuum / close+reopen / exit-without-commit
-   + reopen (log replay) / doctor (all option sets), for EVERY timing of automatic checkpoints
-   and log growth, outside known_class: whenever nothing is pending, the loaded index (what
-   search_vec scans and frame_embedding reads; Stats.vector_count is its length) is exactly the
-   list of (frame, embedding given to it) over the ACTIVE frames, in frame order -- where
-   "given" is: the embedding passed to the put, the i-th chunk embedding for the i-th chunk,
-   the explicit embedding of an update or else what the updated frame had been given.
-   Side conditions: vrun_ok (C01's: no put asks for the DocumentChunk role, no acknowledged
-   update targets a chunk frame) and emb_ok (an embedding has at least one component: the API
-   treats an empty vector as "no embedding", and an empty vector stored next to real ones makes
-   every later search_vec panic in l2_distance -- reported as an observation). *)
-Theorem C14_membership_outside_known :
+   embeddings, empty vectors included) / plain puts / update_frame with or without an explicit
+   embedding and with or without payload / delete / enable_vec / commit / vacuum / close+reopen /
+   exit-without-commit + reopen (log replay, also before the first commit) / doctor (all 16 option
+   sets, rebuild_vec_index included), for EVERY timing of automatic checkpoints and log growth:
+   whenever nothing is pending, the loaded index (what search_vec scans and frame_embedding
+   reads; Stats.vector_count is its length) is exactly the list of (frame, embedding given to
+   it) over the ACTIVE frames, in frame order -- where "given" is: the embedding passed to the
+   put, the i-th chunk embedding for the i-th chunk, the explicit embedding of an update or
+   else what the updated frame had been given; an empty vector is no embedding.
+   Side condition vrun_ok is C01's (no put asks for the DocumentChunk role, no acknowledged
+   update targets a chunk frame): it is what ties frame ids to the reference table. *)
+Theorem C14_membership :
   forall ops : list vop,
     let r := vrun vstate0 ops in
     let s := fst (fst r) in let v := snd (fst r) in
     let xs := combine ops (snd r) in
     let R := fst (vref_run ([], []) xs) in let G := snd (vref_run ([], []) xs) in
-    vrun_ok [] xs = true -> forallb emb_ok ops = true -> known_class ops = false ->
-    pending s = [] ->
+    vrun_ok [] xs = true -> pending s = [] ->
     committed s = R /\ mem_docs v = expected_docs R G /\
     (venabled v = false -> expected_docs R G = []).
-Proof. exact membership_outside_known. Qed.
-Print Assumptions C14_membership_outside_known.
+Proof. exact membership. Qed.
+Print Assumptions C14_membership.
 
 (* the same as an invariant of every reachable state, pending records included: the index is
    the expected list of the committed table restricted to what was given before the pending
@@ -59,7 +61,6 @@ Theorem C14_invariant :
   forall ops s v R G,
     J s R -> Inv s v G ->
     vrun_ok R (combine ops (snd (vrun (s, v) ops))) = true ->
-    forallb emb_ok ops = true -> known_class_from (s, v) ops = false ->
     J (fst (fst (vrun (s, v) ops))) (fst (vref_run (R, G) (combine ops (snd (vrun (s, v) ops))))) /\
     Inv (fst (fst (vrun (s, v) ops))) (snd (fst (vrun (s, v) ops))) (snd (vref_run (R, G) (combine ops (snd (vrun (s, v) ops))))).
 Proof. exact vrun_inv. Qed.
@@ -79,71 +80,72 @@ Theorem C14_update_carries :
 Proof. exact carried_is_given. Qed.
 Print Assumptions C14_update_carries.
 
-(* ---- the property as stated is refuted ---- *)
+(* doctor with rebuild_vec_index (no vacuum flag): the doctored index is the old index restricted
+   to the active frames -- on a reachable quiescent state that is the old index itself *)
+Theorem C14_doctor_vec_keeps :
+  forall bits frames v, bit bits 2 = true -> bit bits 3 = false ->
+    mem_docs (load (doctor_vec bits frames v)) = filter (fun d => frame_is_active frames (fst d)) (mem_docs v) /\
+    venabled (load (doctor_vec bits frames v)) = true.
+Proof. exact doctor_vec_keeps. Qed.
+Print Assumptions C14_doctor_vec_keeps.
+
+(* ---- the former witnesses now meet the property ---- *)
 Definition e1 : emb := [1065353216; 1073741824; 1077936128; 1082130432].   (* 1.0 2.0 3.0 4.0 *)
 Definition e2 : emb := [1084227584; 0; 2147483648; 1065353216].
 Definition e3 : emb := [1088421888; 1088421888; 0; 0].
 Definition e4 : emb := [1090519040; 0; 0; 1065353216].
 
-Definition final_gap (ops : list vop) : Prop :=
-  let r := vrun vstate0 ops in
-  let s := fst (fst r) in let v := snd (fst r) in
-  let xs := combine ops (snd r) in
-  let R := fst (vref_run ([], []) xs) in let G := snd (vref_run ([], []) xs) in
-  vrun_ok [] xs = true /\ forallb emb_ok ops = true /\ pending s = [] /\ mem_docs v <> expected_docs R G.
-
-(* F-C14-1: put with embedding, commit, doctor { rebuild_vec_index } : the index is empty *)
+(* F-C14-1: put with embedding, commit, doctor { rebuild_vec_index } *)
 Definition witness_doctor : list vop :=
   [VOp (OPut None 1000 0 0 None) (VPut (Some e1) None false); VOp (OCommit 1) VNone; VOp (ODoctor 0) (VDoctor 4)].
-(* F-C14-2: first embedded put of a memory, exit without commit, reopen: replay drops the embedding *)
+(* F-C14-2: first embedded put of a memory, exit without commit, reopen *)
 Definition witness_crash : list vop :=
   [VOp (OPut None 1000 0 0 None) (VPut (Some e1) None false); VOp (OCrash 0) VNone].
 
-Theorem C14_membership_refuted : exists ops, final_gap ops.
-Proof. exists witness_doctor. unfold final_gap. vm_compute. repeat split; discriminate. Qed.
-Print Assumptions C14_membership_refuted.
-
-Theorem C14_membership_refuted_crash : final_gap witness_crash /\ final_gap witness_doctor.
-Proof. unfold final_gap. vm_compute. repeat split; discriminate. Qed.
-
-Example C14_witnesses_are_known : known_class witness_doctor = true /\ known_class witness_crash = true.
+Example C14_former_witnesses_hold :
+  observe_vec (snd (fst (vrun vstate0 witness_doctor))) = (true, true, 1, Some [(0, e1)]) /\
+  observe_vec (snd (fst (vrun vstate0 witness_crash))) = (true, true, 1, Some [(0, e1)]).
 Proof. vm_compute. split; reflexivity. Qed.
 
-(* doctor with rebuild_vec_index leaves an enabled, empty index whatever was there *)
-Theorem C14_doctor_vec_wipes :
+(* ---- historical: the behaviour before the repairs ---- *)
+(* before 83a83e8 doctor with rebuild_vec_index left an enabled, empty index whatever was there *)
+Theorem C14_doctor_vec_wipes_unfixed :
   forall bits frames v, bit bits 2 = true ->
-    mem_docs (load (doctor_vec bits frames v)) = [] /\ venabled (load (doctor_vec bits frames v)) = true.
-Proof. exact doctor_vec_wipes. Qed.
-Print Assumptions C14_doctor_vec_wipes.
+    mem_docs (load (doctor_vec_unfixed bits frames v)) = [] /\ venabled (load (doctor_vec_unfixed bits frames v)) = true.
+Proof. exact doctor_vec_wipes_unfixed. Qed.
+Print Assumptions C14_doctor_vec_wipes_unfixed.
 
-(* ---- non-vacuity: a history with a chunked document (one of two chunk embeddings given), an
-   update carrying the embedding, a delete, a crash whose replay keeps the embeddings (the
-   manifest had been committed), an automatic checkpoint, vacuum, doctor { time, lex } and a
-   reopen meets every hypothesis; three frames stay findable ---- *)
+(* before 8099cac a commit / replay that ran with vec disabled dropped the embeddings of its records *)
+Theorem C14_replay_drops_unfixed :
+  forall frames recs v, venabled v = false -> delta_nonempty recs = true ->
+    mem_docs (vcommit_unfixed frames recs v) = [] /\ venabled (vcommit_unfixed frames recs v) = false.
+Proof. exact vcommit_unfixed_drops. Qed.
+Print Assumptions C14_replay_drops_unfixed.
+
+(* ---- non-vacuity: a history with a chunked document (an empty parent vector, one real and one
+   empty chunk embedding), an update carrying the embedding, a delete, a crash before the first
+   commit (replay keeps the embeddings), an automatic checkpoint, vacuum, doctor with every flag,
+   enable_vec and a reopen meets the hypothesis; three frames stay findable ---- *)
 Definition demo : list vop :=
   [VOp (OPut None 1000 0 0 None) (VPut (Some e1) None false);
-   VOp (OPut None 2000 2 0 None) (VPut (Some e2) (Some [e3]) false);
-   VOp (OCommit 1) VNone;
+   VOp (OPut None 2000 2 0 None) (VPut (Some []) (Some [e3; []]) false);
+   VOp (OCrash 1) VNone;
    VOp (OUpdate 0 (Some 3000) None None) (VUpd None false);
    VOp (ODelete 1 None) (VDel false);
    VOp (OCrash 1) VNone;
    VOp (OPut None 4000 0 0 (Some 1)) (VPut (Some e4) None false);
+   VOp (OUpdate 5 None None None) (VUpd (Some []) false);
    VOp (OCommit 0) VVacuum;
-   VOp (ODoctor 9) (VDoctor 3);
+   VOp (ODoctor 9) (VDoctor 15);
    VEnableVec;
    VOp (OReopen 0) VNone].
 
 Example C14_nonvacuous :
   let r := vrun vstate0 demo in
   let xs := combine demo (snd r) in
-  vrun_ok [] xs = true /\ forallb emb_ok demo = true /\ known_class demo = false /\
+  vrun_ok [] xs = true /\
   pending (fst (fst r)) = [] /\
-  mem_docs (snd (fst r)) = [(2, e3); (4, e1); (5, e4)] /\
-  expected_docs (fst (vref_run ([], []) xs)) (snd (vref_run ([], []) xs)) = [(2, e3); (4, e1); (5, e4)] /\
-  snd (vref_run ([], []) xs) = [(0, e1); (1, e2); (2, e3); (4, e1); (5, e4)].
+  mem_docs (snd (fst r)) = [(2, e3); (4, e1)] /\
+  expected_docs (fst (vref_run ([], []) xs)) (snd (vref_run ([], []) xs)) = [(2, e3); (4, e1)] /\
+  snd (vref_run ([], []) xs) = [(0, e1); (2, e3); (4, e1); (5, e4)].
 Proof. vm_compute. repeat split. Qed.
-
-(* the two guards are satisfiable separately and each is needed: emb_ok fails on an empty vector *)
-Example C14_emb_ok_needed :
-  forallb emb_ok [VOp (OPut None 1000 0 0 None) (VPut (Some []) None false)] = false.
-Proof. reflexivity. Qed.
